@@ -8,6 +8,206 @@ then returns exactly the window `W[r, r+k)`.
 import DastardV.Model.C18
 namespace DastardV.C18
 
+/-! ### Arithmetic and list helpers -/
+
+theorem dm (cap m x a : Nat) (h : a = cap * m + x) (hx : x < cap) :
+    a / cap = m ∧ a % cap = x := by
+  subst h
+  have hc : 0 < cap := by omega
+  constructor
+  · rw [Nat.mul_add_div hc, Nat.div_eq_of_lt hx]; simp
+  · rw [Nat.mul_add_mod, Nat.mod_eq_of_lt hx]
+
+theorem shift (cap a d : Nat) (hc : 0 < cap) (hd : d < cap) :
+    ((a + d) % cap = if a % cap + d < cap then a % cap + d else a % cap + d - cap) ∧
+    ((a + d) / cap > a / cap ↔ cap ≤ a % cap + d) := by
+  have h := Nat.div_add_mod a cap
+  have hlt := Nat.mod_lt a hc
+  generalize a / cap = q at *
+  generalize a % cap = ra at *
+  by_cases hw : ra + d < cap
+  · have := dm cap q (ra + d) (a + d) (by omega) hw
+    rw [this.1, this.2, if_pos hw]; omega
+  · have := dm cap (q+1) (ra + d - cap) (a + d) (by have := Nat.mul_add cap q 1; omega) (by omega)
+    rw [this.1, this.2, if_neg hw]; omega
+
+theorem blit_len (mem : List Nat) (s : Nat) (src : List Nat) (h : s + src.length ≤ mem.length) :
+    (blit mem s src).length = mem.length := by
+  simp [blit]; omega
+
+theorem blit_get (mem : List Nat) (s : Nat) (src : List Nat) (j : Nat)
+    (h : s + src.length ≤ mem.length) :
+    (blit mem s src)[j]? = if s ≤ j ∧ j < s + src.length then src[j - s]? else mem[j]? := by
+  unfold blit
+  have hl : (List.take s mem).length = s := by simp; omega
+  by_cases h1 : j < s
+  · rw [List.append_assoc, List.getElem?_append_left (by omega)]
+    rw [if_neg (by omega), List.getElem?_take, if_pos h1]
+  · by_cases h2 : j < s + src.length
+    · rw [List.append_assoc, List.getElem?_append_right (by omega), hl,
+        List.getElem?_append_left (by omega), if_pos (by omega)]
+    · rw [List.getElem?_append_right (by simp; omega), if_neg (by omega), List.getElem?_drop]
+      simp only [List.length_append, hl]
+      congr 1; omega
+
+/-! ### `read` unfolded -/
+
+def rdata (mem : List Nat) (cap r k : Nat) : List Nat :=
+  let rAfter := r + k
+  let dataWraps := rAfter / cap > r / cap
+  let rawbegin := r % cap
+  let rawend := if dataWraps then cap else rAfter % cap
+  let data := slice mem rawbegin rawend
+  if dataWraps ∧ k > data.length then data ++ mem.take (k - data.length) else data
+
+theorem read_pos (b : RB) (size : Int) (k : Nat) (hk : k = (min size ((b.w : Int) - b.r)).toNat)
+    (h0 : 0 < k) : read b size = ({ b with r := b.r + k }, rdata b.mem b.cap b.r k) := by
+  unfold read rdata
+  have e : (if size > (b.w : Int) - b.r then (b.w : Int) - b.r else size) = min size ((b.w : Int) - b.r) := by
+    split <;> omega
+  simp only [e]
+  rw [if_neg (by omega), ← hk]
+
+theorem read_zero (b : RB) (size : Int) (hk : (min size ((b.w : Int) - b.r)).toNat = 0) :
+    read b size = (b, []) := by
+  unfold read
+  have e : (if size > (b.w : Int) - b.r then (b.w : Int) - b.r else size) = min size ((b.w : Int) - b.r) := by
+    split <;> omega
+  simp only [e]
+  rw [if_pos (by omega)]
+
+theorem rdata_spec (mem : List Nat) (cap r k : Nat) (hlen : mem.length = cap) (hk : k < cap) :
+    (rdata mem cap r k).length = k ∧
+      ∀ j, j < k → (rdata mem cap r k)[j]? = mem[(r + j) % cap]? := by
+  have hc : 0 < cap := by omega
+  have hs := shift cap r k hc hk
+  have hlt := Nat.mod_lt r hc
+  have hj : ∀ j, j < k → (r + j) % cap = if r % cap + j < cap then r % cap + j else r % cap + j - cap :=
+    fun j hj => (shift cap r j hc (by omega)).1
+  unfold rdata slice
+  simp only [hs.1, hs.2]
+  generalize r % cap = rb at *
+  by_cases hw : cap ≤ rb + k
+  · simp only [hw, if_true, true_and, List.length_take, List.length_drop, hlen, Nat.min_self]
+    by_cases hw2 : k > cap - rb
+    · simp only [hw2, if_true]
+      constructor
+      · simp [hlen]; omega
+      · intro j hjk
+        rw [hj j hjk]
+        by_cases h3 : rb + j < cap
+        · rw [if_pos h3, List.getElem?_append_left (by simp [hlen]; omega), List.getElem?_take,
+            if_pos (by omega), List.getElem?_drop]
+        · rw [if_neg h3, List.getElem?_append_right (by simp [hlen]; omega), List.getElem?_take]
+          simp only [List.length_take, List.length_drop, hlen, Nat.min_self]
+          rw [if_pos (by omega)]
+          congr 1; omega
+    · simp only [hw2, if_false]
+      constructor
+      · simp [hlen]; omega
+      · intro j hjk
+        rw [hj j hjk, if_pos (by omega), List.getElem?_take, if_pos (by omega), List.getElem?_drop]
+  · simp only [hw, false_and, if_false]
+    have e : (if rb + k < cap then rb + k else rb + k - cap) - rb = k := by
+      rw [if_pos (by omega)]; omega
+    rw [e]
+    constructor
+    · simp [hlen]; omega
+    · intro j hjk
+      rw [hj j hjk, if_pos (by omega), List.getElem?_take, if_pos (by omega), List.getElem?_drop]
+
+/-! ### `write` unfolded -/
+
+def wmem (mem : List Nat) (cap w written : Nat) (data : List Nat) : List Nat :=
+  let wAfter := w + written
+  let dataWraps := wAfter / cap > w / cap
+  let rawbegin := w % cap
+  let rawend := if dataWraps then cap else wAfter % cap
+  let firstblocksize := rawend - rawbegin
+  let mem1 := blit mem rawbegin (data.take firstblocksize)
+  if dataWraps then blit mem1 0 ((data.drop firstblocksize).take (written - firstblocksize))
+  else mem1
+
+theorem write_eq (b : RB) (d : List Nat) (h : b.w - b.r + 1 ≤ b.cap) (n : Nat)
+    (hn : n = min d.length (b.cap - 1 - (b.w - b.r))) :
+    write b d = some ({ b with w := b.w + n, mem := wmem b.mem b.cap b.w n d }, n) := by
+  unfold write wmem
+  have e : (if d.length > b.cap - (b.w - b.r + 1) then b.cap - (b.w - b.r + 1) else d.length) = n := by
+    split <;> omega
+  simp only [e]
+  rw [if_neg (by omega)]
+
+theorem wmem_spec (mem : List Nat) (cap w n : Nat) (d : List Nat) (hlen : mem.length = cap)
+    (hn : n < cap) (hnd : n ≤ d.length) :
+    (wmem mem cap w n d).length = cap ∧
+      ∀ p, p < cap → (wmem mem cap w n d)[p]? =
+        if w % cap ≤ p ∧ p < w % cap + n then d[p - w % cap]?
+        else if p + cap < w % cap + n then d[p + cap - w % cap]? else mem[p]? := by
+  have hc : 0 < cap := by omega
+  have hs := shift cap w n hc hn
+  have hlt := Nat.mod_lt w hc
+  unfold wmem
+  simp only [hs.1, hs.2]
+  generalize w % cap = rb at *
+  by_cases hw : cap ≤ rb + n
+  · simp only [hw, if_true]
+    have l1 : (List.take (cap - rb) d).length = cap - rb := by simp; omega
+    have l2 : (List.take (n - (cap - rb)) (List.drop (cap - rb) d)).length = n - (cap - rb) := by
+      simp; omega
+    have lb : (blit mem rb (List.take (cap - rb) d)).length = cap := by
+      rw [blit_len _ _ _ (by omega)]; exact hlen
+    constructor
+    · rw [blit_len _ _ _ (by omega)]; exact lb
+    · intro p hp
+      rw [blit_get _ _ _ _ (by omega), blit_get _ _ _ _ (by omega), l1, l2]
+      by_cases h1 : p < n - (cap - rb)
+      · rw [if_pos (by omega), if_neg (by omega), if_pos (by omega), List.getElem?_take,
+          if_pos (by omega), List.getElem?_drop]
+        congr 1; omega
+      · rw [if_neg (by omega), if_neg (by omega : ¬ (p + cap < rb + n))]
+        by_cases h2 : rb ≤ p
+        · rw [if_pos (by omega), if_pos (by omega), List.getElem?_take, if_pos (by omega)]
+        · rw [if_neg (by omega), if_neg (by omega)]
+  · simp only [hw, if_false]
+    have e : (if rb + n < cap then rb + n else rb + n - cap) - rb = n := by
+      rw [if_pos (by omega)]; omega
+    rw [e]
+    have l1 : (List.take n d).length = n := by simp; omega
+    constructor
+    · rw [blit_len _ _ _ (by omega)]; exact hlen
+    · intro p hp
+      rw [blit_get _ _ _ _ (by omega), l1]
+      by_cases h2 : rb ≤ p ∧ p < rb + n
+      · rw [if_pos h2, if_pos h2, List.getElem?_take, if_pos (by omega)]
+      · rw [if_neg h2, if_neg h2, if_neg (by omega)]
+
+theorem wmem_log (mem : List Nat) (cap w n : Nat) (d : List Nat) (hlen : mem.length = cap)
+    (hn : n < cap) (hnd : n ≤ d.length) (i : Nat) (hi : i < w + n) (hic : w + n ≤ i + cap) :
+    (wmem mem cap w n d)[i % cap]? = if w ≤ i then d[i - w]? else mem[i % cap]? := by
+  have hc : 0 < cap := by omega
+  have hp := Nat.mod_lt i hc
+  have hlt := Nat.mod_lt w hc
+  rw [(wmem_spec mem cap w n d hlen hn hnd).2 _ hp]
+  by_cases h : w ≤ i
+  · have hs := (shift cap w (i - w) hc (by omega)).1
+    rw [show w + (i - w) = i by omega] at hs
+    rw [if_pos h, hs]
+    by_cases h2 : w % cap + (i - w) < cap
+    · rw [if_pos h2, if_pos (by omega)]
+      congr 1; omega
+    · rw [if_neg h2, if_neg (by omega), if_pos (by omega)]
+      congr 1; omega
+  · rw [if_neg h]
+    by_cases hn0 : n = 0
+    · rw [if_neg (by omega), if_neg (by omega)]
+    · have hs := (shift cap i (w - i) hc (by omega)).1
+      rw [show i + (w - i) = w by omega] at hs
+      by_cases h2 : i % cap + (w - i) < cap
+      · rw [if_pos h2] at hs
+        rw [if_neg (by omega), if_neg (by omega)]
+      · rw [if_neg h2] at hs
+        rw [if_neg (by omega), if_neg (by omega)]
+
 /-- the raw region holds the last `cap` bytes of the logical stream `W` -/
 structure Rep (b : RB) (W : List Nat) : Prop where
   cap2 : 2 ≤ b.cap
@@ -18,14 +218,47 @@ structure Rep (b : RB) (W : List Nat) : Prop where
   held : ∀ i (hi : i < W.length), W.length ≤ i + b.cap → b.mem[i % b.cap]? = some W[i]
 
 theorem rep_create (cap : Nat) (h : 2 ≤ cap) : Rep (RB.create cap) [] := by
-  sorry
+  refine ⟨h, ?_, rfl, Nat.le_refl _, ?_, ?_⟩
+  · simp [RB.create]
+  · simp [RB.create]
+  · intro i hi; simp at hi
+
+theorem Rep.held' {b : RB} {W : List Nat} (hr : Rep b W) (i : Nat) (hi : i < W.length)
+    (h : W.length ≤ i + b.cap) : b.mem[i % b.cap]? = W[i]? := by
+  rw [hr.held i hi h, List.getElem?_eq_getElem hi]
 
 /-- `Write` accepts `min len free` bytes, appends them to the logical stream and keeps the
 representation; the read pointer does not move. -/
 theorem write_spec (b : RB) (W : List Nat) (hr : Rep b W) (d : List Nat) :
     ∃ b' n, write b d = some (b', n) ∧ n = min d.length (b.cap - 1 - (b.w - b.r)) ∧
       b'.r = b.r ∧ b'.cap = b.cap ∧ Rep b' (W ++ d.take n) := by
-  sorry
+  have hocc := hr.occ
+  have hrle := hr.r_le
+  have hcap := hr.cap2
+  have hw := hr.w_eq
+  have hlen := hr.len
+  obtain ⟨n, hn⟩ : ∃ n, n = min d.length (b.cap - 1 - (b.w - b.r)) := ⟨_, rfl⟩
+  have hnd : n ≤ d.length := by omega
+  have hnc : n < b.cap := by omega
+  refine ⟨_, n, write_eq b d (by omega) n hn, hn, rfl, rfl, ?_⟩
+  have hs := wmem_spec b.mem b.cap b.w n d hlen hnc hnd
+  have hl : (W ++ List.take n d).length = b.w + n := by
+    rw [List.length_append, List.length_take, ← hw]; omega
+  refine ⟨hcap, hs.1, hl.symm, ?_, ?_, ?_⟩
+  · show b.r ≤ b.w + n
+    omega
+  · show b.w + n - b.r ≤ b.cap - 1
+    omega
+  · intro i hi hic
+    have hi : i < b.w + n := by rw [hl] at hi; exact hi
+    have hic : b.w + n ≤ i + b.cap := by rw [hl] at hic; exact hic
+    show (wmem b.mem b.cap b.w n d)[i % b.cap]? = _
+    rw [wmem_log b.mem b.cap b.w n d hlen hnc hnd i hi hic, ← List.getElem?_eq_getElem]
+    by_cases h : b.w ≤ i
+    · rw [if_pos h, List.getElem?_append_right (by omega), ← hw, List.getElem?_take,
+        if_pos (by omega)]
+    · rw [if_neg h, List.getElem?_append_left (by omega)]
+      exact hr.held' i (by omega) (by omega)
 
 /-- `Read(size)` returns exactly the next `k = clamp size` bytes of the logical stream and
 advances the read pointer by `k`. -/
@@ -33,24 +266,95 @@ theorem read_spec (b : RB) (W : List Nat) (hr : Rep b W) (size : Int) :
     let k := (min size ((b.w : Int) - b.r)).toNat
     (read b size).2 = (W.drop b.r).take k ∧ (read b size).1.r = b.r + k ∧
       (read b size).2.length = k ∧ (read b size).1.cap = b.cap ∧ Rep (read b size).1 W := by
-  sorry
+  intro k
+  have hocc := hr.occ
+  have hrle := hr.r_le
+  have hcap := hr.cap2
+  have hw := hr.w_eq
+  by_cases h0 : k = 0
+  · rw [read_zero b size h0, h0]
+    exact ⟨by simp, rfl, rfl, rfl, hr⟩
+  · have hkle : k ≤ b.w - b.r := by omega
+    rw [read_pos b size k rfl (by omega)]
+    have hs := rdata_spec b.mem b.cap b.r k hr.len (by omega)
+    refine ⟨?_, rfl, hs.1, rfl, ⟨hr.cap2, hr.len, hr.w_eq, ?_, ?_, hr.held⟩⟩
+    · apply List.ext_getElem?
+      intro j
+      show (rdata b.mem b.cap b.r k)[j]? = _
+      rw [List.getElem?_take]
+      by_cases hj : j < k
+      · rw [if_pos hj, hs.2 j hj, List.getElem?_drop]
+        exact hr.held' (b.r + j) (by omega) (by omega)
+      · rw [if_neg hj, List.getElem?_eq_none (by omega)]
+    · show b.r + k ≤ b.w
+      omega
+    · show b.w - (b.r + k) ≤ b.cap - 1
+      omega
+
+theorem readMult_eq (b : RB) (W : List Nat) (hr : Rep b W) (k : Nat) :
+    readMultipleOf b k =
+      if k ≥ b.cap then none else some (read b ((k * ((b.w - b.r) / k) : Nat) : Int)) := by
+  have hocc := hr.occ
+  have hcap := hr.cap2
+  unfold readMultipleOf bytesReadable
+  rw [if_neg (by omega : ¬ b.w - b.r ≥ b.cap)]
 
 /-- **C18_multiple_of_chunk**: a successful `ReadMultipleOf(k)` returns a multiple of `k` bytes. -/
 theorem C18_multiple_of_chunk (b : RB) (W : List Nat) (hr : Rep b W) (k : Nat) (hk : 1 ≤ k)
     (b' : RB) (bs : List Nat) (h : readMultipleOf b k = some (b', bs)) :
     bs.length % k = 0 ∧ bs = (W.drop b.r).take bs.length ∧ b'.r = b.r + bs.length ∧ Rep b' W := by
-  sorry
+  have _ := hk
+  have hocc := hr.occ
+  have hrle := hr.r_le
+  have hcap := hr.cap2
+  rw [readMult_eq b W hr k] at h
+  split at h
+  · cases h
+  · have hmd := Nat.mul_div_le (b.w - b.r) k
+    have hmm : k * ((b.w - b.r) / k) % k = 0 := Nat.mul_mod_right _ _
+    generalize k * ((b.w - b.r) / k) = m at h hmd hmm
+    have hs := read_spec b W hr (m : Int)
+    have hm : (min (m : Int) ((b.w : Int) - b.r)).toNat = m := by omega
+    simp only [hm] at hs
+    have h' : read b (m : Int) = (b', bs) := Option.some.inj h
+    rw [h'] at hs
+    obtain ⟨h1, h2, h3, _, h5⟩ := hs
+    simp only at h1 h2 h3 h5
+    refine ⟨?_, ?_, ?_, h5⟩
+    · rw [h3]; exact hmm
+    · rw [h3]; exact h1
+    · rw [h3]; exact h2
 
 /-- **C18_stride_boundary**: `DiscardStride(k)` leaves the read position on a stride boundary. -/
 theorem C18_stride_boundary (b : RB) (k : Nat) (hk : 1 ≤ k) : (discardStride b k).r % k = 0 := by
-  sorry
+  have _ := hk
+  unfold discardStride
+  simp only
+  split
+  · have h := Nat.div_add_mod b.w k
+    have e : b.w - b.w % k = k * (b.w / k) := by omega
+    rw [e, Nat.mul_mod_right]
+  · omega
 
 /-- a discard is *forward* when the last stride boundary is not behind the read pointer -/
 def Forward (b : RB) (k : Nat) : Prop := b.r ≤ b.w - b.w % k
 
 theorem discard_spec (b : RB) (W : List Nat) (hr : Rep b W) (k : Nat) (hk : 1 ≤ k) (hf : Forward b k) :
     Rep (discardStride b k) W ∧ b.r ≤ (discardStride b k).r ∧ (discardStride b k).r ≤ b.w := by
-  sorry
+  have _ := hk
+  have e : (discardStride b k).r = b.w - b.w % k := by
+    unfold discardStride
+    simp only
+    split <;> omega
+  have hf' : b.r ≤ b.w - b.w % k := hf
+  refine ⟨⟨hr.cap2, hr.len, hr.w_eq, ?_, ?_, hr.held⟩, ?_, ?_⟩
+  · show (discardStride b k).r ≤ b.w
+    omega
+  · show b.w - (discardStride b k).r ≤ b.cap - 1
+    have := hr.occ
+    omega
+  · omega
+  · omega
 
 /-! ### Whole histories -/
 
@@ -80,6 +384,195 @@ def keepMask : List Nat → List Bool → List Nat
   | x :: xs, m :: ms => if m then x :: keepMask xs ms else keepMask xs ms
   | _, _ => []
 
+/-! ### Helpers for histories -/
+
+/-- bytes accepted by one step -/
+def acc1 : Op → Res → List Nat
+  | .write d, .wrote n => d.take n
+  | _, _ => []
+
+/-- bytes delivered by one step -/
+def del1 : Res → List Nat
+  | .bytes bs => bs
+  | _ => []
+
+theorem accepted_cons (o : Op) (os : List Op) (r : Res) (rs : List Res) :
+    accepted (o :: os) (r :: rs) = acc1 o r ++ accepted os rs := by
+  cases o <;> cases r <;> simp [accepted, acc1]
+
+theorem delivered_cons (r : Res) (rs : List Res) :
+    delivered (r :: rs) = del1 r ++ delivered rs := by
+  cases r <;> simp [delivered, del1]
+
+theorem runOps_cons (b : RB) (o : Op) (os : List Op) :
+    runOps b (o :: os) =
+      ((runOps (step b o).1 os).1, (step b o).2 :: (runOps (step b o).1 os).2) := rfl
+
+theorem keepMask_append (xs : List Nat) : ∀ (m1 : List Bool) (ys : List Nat) (m2 : List Bool),
+    xs.length = m1.length → keepMask (xs ++ ys) (m1 ++ m2) = keepMask xs m1 ++ keepMask ys m2 := by
+  induction xs with
+  | nil =>
+    intro m1 ys m2 h
+    cases m1 with
+    | nil => simp [keepMask]
+    | cons _ _ => simp at h
+  | cons x xs ih =>
+    intro m1 ys m2 h
+    cases m1 with
+    | nil => simp at h
+    | cons m ms =>
+      have h' : xs.length = ms.length := by simpa using h
+      cases m <;> simp [keepMask, ih ms ys m2 h']
+
+theorem keepMask_alltrue (xs : List Nat) : ∀ (m : List Bool), m.length = xs.length →
+    (∀ x ∈ m, x = true) → keepMask xs m = xs := by
+  induction xs with
+  | nil => intro m _ _; cases m <;> simp [keepMask]
+  | cons x xs ih =>
+    intro m h ht
+    cases m with
+    | nil => simp at h
+    | cons m ms =>
+      have hm : m = true := ht m (by simp)
+      subst hm
+      simp [keepMask, ih ms (by simpa using h) (fun x hx => ht x (by simp [hx]))]
+
+theorem keepMask_false (xs : List Nat) : ∀ n, keepMask xs (List.replicate n false) = [] := by
+  induction xs with
+  | nil => intro n; cases n <;> simp [keepMask]
+  | cons x xs ih =>
+    intro n
+    cases n with
+    | zero => simp [keepMask]
+    | succ n => simp [keepMask, List.replicate, ih n]
+
+theorem window_split (L : List Nat) (a c e : Nat) (h1 : a ≤ c) (h2 : c ≤ e) :
+    (L.drop a).take (e - a) = (L.drop a).take (c - a) ++ (L.drop c).take (e - c) := by
+  have e1 : e - a = (c - a) + (e - c) := by omega
+  rw [e1, List.take_add, List.drop_drop]
+  congr 3; omega
+
+/-- the per-step hypothesis of `OkHist` -/
+def OkStep (b : RB) : Op → Prop
+  | .discard k => 1 ≤ k ∧ Forward b k
+  | .readMult k => 1 ≤ k
+  | _ => True
+
+theorem okHist_cons (b : RB) (o : Op) (os : List Op) :
+    OkHist b (o :: os) ↔ OkStep b o ∧ OkHist (step b o).1 os := by
+  cases o <;> simp [OkHist, OkStep]
+
+/-- one step: keeps the representation, appends the accepted bytes, moves the read pointer
+forward inside the stream; what it delivers is the skipped window (`m = true`) or nothing
+(`m = false`, only for discards). -/
+theorem step_spec (b : RB) (W : List Nat) (hr : Rep b W) (o : Op) (hok : OkStep b o) :
+    Rep (step b o).1 (W ++ acc1 o (step b o).2) ∧ b.r ≤ (step b o).1.r ∧
+      (step b o).1.r ≤ W.length ∧ (step b o).1.cap = b.cap ∧
+      ∃ m : Bool, del1 (step b o).2 =
+          keepMask ((W.drop b.r).take ((step b o).1.r - b.r))
+            (List.replicate ((step b o).1.r - b.r) m) ∧
+        ((∀ k, o ≠ .discard k) → m = true) := by
+  have hw := hr.w_eq
+  have hrle := hr.r_le
+  -- reads, uniformly
+  have hread : ∀ size : Int,
+      Rep (read b size).1 W ∧ b.r ≤ (read b size).1.r ∧ (read b size).1.r ≤ W.length ∧
+        (read b size).1.cap = b.cap ∧
+        (read b size).2 = keepMask ((W.drop b.r).take ((read b size).1.r - b.r))
+          (List.replicate ((read b size).1.r - b.r) true) := by
+    intro size
+    have hs := read_spec b W hr size
+    simp only at hs
+    obtain ⟨h1, h2, h3, h4, h5⟩ := hs
+    have h6 := h5.r_le
+    have h7 := h5.w_eq
+    refine ⟨h5, by omega, by omega, h4, ?_⟩
+    have e : (read b size).1.r - b.r = (min size ((b.w : Int) - b.r)).toNat := by omega
+    rw [e, ← h1, keepMask_alltrue _ _ (by simp [h3]) (by simp)]
+  cases o with
+  | write d =>
+    obtain ⟨b', n, h1, _, h3, h4, h5⟩ := write_spec b W hr d
+    simp only [step, h1, acc1, del1]
+    refine ⟨h5, by omega, by omega, h4, true, ?_, fun _ => rfl⟩
+    simp [h3, keepMask]
+  | read n =>
+    obtain ⟨h1, h2, h3, h4, h5⟩ := hread n
+    simp only [step, acc1, del1, List.append_nil]
+    exact ⟨h1, h2, h3, h4, true, h5, fun _ => rfl⟩
+  | readAll =>
+    obtain ⟨h1, h2, h3, h4, h5⟩ := hread b.cap
+    simp only [step, readAll, acc1, del1, List.append_nil]
+    exact ⟨h1, h2, h3, h4, true, h5, fun _ => rfl⟩
+  | readMult k =>
+    by_cases hkc : k ≥ b.cap
+    · simp only [step, readMult_eq b W hr k, if_pos hkc, acc1, del1, List.append_nil]
+      refine ⟨hr, Nat.le_refl _, by omega, trivial, true, ?_, fun _ => rfl⟩
+      simp [keepMask]
+    · obtain ⟨h1, h2, h3, h4, h5⟩ := hread ((k * ((b.w - b.r) / k) : Nat) : Int)
+      simp only [step, readMult_eq b W hr k, if_neg hkc, acc1, del1, List.append_nil]
+      exact ⟨h1, h2, h3, h4, true, h5, fun _ => rfl⟩
+  | discard k =>
+    obtain ⟨hk, hf⟩ : 1 ≤ k ∧ Forward b k := hok
+    obtain ⟨h1, h2, h3⟩ := discard_spec b W hr k hk hf
+    simp only [step, acc1, del1, List.append_nil]
+    refine ⟨h1, h2, by omega, rfl, false, ?_, fun h => absurd rfl (h k)⟩
+    rw [keepMask_false]
+
+/-- the history invariant, from an arbitrary represented state -/
+theorem run_inv (ops : List Op) : ∀ (b : RB) (W : List Nat), Rep b W → OkHist b ops →
+    Rep (runOps b ops).1 (W ++ accepted ops (runOps b ops).2) ∧ b.r ≤ (runOps b ops).1.r ∧
+      ∃ mask : List Bool, mask.length = (runOps b ops).1.r - b.r ∧
+        delivered (runOps b ops).2 =
+          keepMask (((W ++ accepted ops (runOps b ops).2).drop b.r).take
+            ((runOps b ops).1.r - b.r)) mask ∧
+        ((∀ o ∈ ops, ∀ k, o ≠ .discard k) → ∀ x ∈ mask, x = true) := by
+  induction ops with
+  | nil =>
+    intro b W hr _
+    refine ⟨by simpa [runOps, accepted] using hr, Nat.le_refl _, [], by simp [runOps], ?_, ?_⟩
+    · simp [runOps, delivered, keepMask]
+    · intro _ x hx; simp at hx
+  | cons o os ih =>
+    intro b W hr hok
+    rw [okHist_cons] at hok
+    obtain ⟨hs1, hs2, hs3, _, m, hs5, hs6⟩ := step_spec b W hr o hok.1
+    obtain ⟨hi1, hi2, mask', hi3, hi4, hi5⟩ := ih (step b o).1 _ hs1 hok.2
+    rw [runOps_cons]
+    simp only [accepted_cons, delivered_cons]
+    generalize step b o = s1 at *
+    generalize runOps s1.1 os = out at *
+    rw [List.append_assoc] at hi1 hi4
+    have hlen := hi1.w_eq
+    have hrle := hi1.r_le
+    refine ⟨hi1, by omega, List.replicate (s1.1.r - b.r) m ++ mask', ?_, ?_, ?_⟩
+    · simp [hi3]; omega
+    · rw [window_split _ b.r s1.1.r out.1.r hs2 hi2, keepMask_append _ _ _ _ (by simp; omega),
+        ← hi4, hs5]
+      congr 2
+      rw [List.drop_append_of_le_length (by omega), List.take_append_of_le_length (by simp; omega)]
+    · intro hno x hx
+      rw [List.mem_append] at hx
+      cases hx with
+      | inl hx =>
+        rw [List.mem_replicate] at hx
+        rw [hx.2]
+        exact hs6 (hno o (by simp))
+      | inr hx => exact hi5 (fun o' ho' => hno o' (by simp [ho'])) x hx
+
+theorem okHist_of_noDiscard (ops : List Op) : ∀ (b : RB),
+    (∀ o ∈ ops, ∀ k, o ≠ .discard k) → (∀ o ∈ ops, ∀ k, o = .readMult k → 1 ≤ k) →
+    OkHist b ops := by
+  induction ops with
+  | nil => intro b _ _; simp [OkHist]
+  | cons o os ih =>
+    intro b hno hk
+    rw [okHist_cons]
+    refine ⟨?_, ih _ (fun o' ho' => hno o' (by simp [ho'])) (fun o' ho' => hk o' (by simp [ho']))⟩
+    cases o with
+    | discard k => exact absurd rfl (hno _ (by simp) k)
+    | readMult k => exact hk _ (by simp) k rfl
+    | _ => trivial
+
 /-- **C18_reads_prefix_of_writes** (histories without discards): the concatenation of all
 bytes returned by reads is a prefix of the concatenation of all bytes accepted by writes —
 exactly the first `r` of them — for every buffer size ≥ 2 and every operation sequence. -/
@@ -87,7 +580,19 @@ theorem C18_reads_prefix_of_writes (cap : Nat) (h2 : 2 ≤ cap) (ops : List Op)
     (hno : ∀ o ∈ ops, ∀ k, o ≠ .discard k) (hk : ∀ o ∈ ops, ∀ k, o = .readMult k → 1 ≤ k) :
     let out := runOps (RB.create cap) ops
     delivered out.2 = (accepted ops out.2).take out.1.r ∧ out.1.r ≤ (accepted ops out.2).length := by
-  sorry
+  show delivered (runOps (RB.create cap) ops).2 =
+      (accepted ops (runOps (RB.create cap) ops).2).take (runOps (RB.create cap) ops).1.r ∧
+    (runOps (RB.create cap) ops).1.r ≤ (accepted ops (runOps (RB.create cap) ops).2).length
+  obtain ⟨h1, _, mask, h3, h4, h5⟩ :=
+    run_inv ops (RB.create cap) [] (rep_create cap h2) (okHist_of_noDiscard ops _ hno hk)
+  have hl := h1.w_eq
+  have hr := h1.r_le
+  simp only [List.nil_append] at h1 h4 hl
+  have e0 : (RB.create cap).r = 0 := rfl
+  rw [e0, Nat.sub_zero] at h3
+  rw [e0, Nat.sub_zero, List.drop_zero] at h4
+  refine ⟨?_, by omega⟩
+  rw [h4, keepMask_alltrue _ _ (by simp [h3]; omega) (h5 hno)]
 
 /-- **C18_fifo_with_discards**: with forward discards, the delivered bytes are the accepted
 stream restricted to the non-discarded positions, in order, each once: there is a mask over
@@ -97,7 +602,19 @@ theorem C18_fifo_with_discards (cap : Nat) (h2 : 2 ≤ cap) (ops : List Op)
     let out := runOps (RB.create cap) ops
     ∃ mask : List Bool, mask.length = out.1.r ∧ out.1.r ≤ (accepted ops out.2).length ∧
       delivered out.2 = keepMask ((accepted ops out.2).take out.1.r) mask := by
-  sorry
+  show ∃ mask : List Bool, mask.length = (runOps (RB.create cap) ops).1.r ∧
+    (runOps (RB.create cap) ops).1.r ≤ (accepted ops (runOps (RB.create cap) ops).2).length ∧
+    delivered (runOps (RB.create cap) ops).2 =
+      keepMask ((accepted ops (runOps (RB.create cap) ops).2).take
+        (runOps (RB.create cap) ops).1.r) mask
+  obtain ⟨h1, _, mask, h3, h4, _⟩ := run_inv ops (RB.create cap) [] (rep_create cap h2) hok
+  have hl := h1.w_eq
+  have hr := h1.r_le
+  simp only [List.nil_append] at h1 h4 hl
+  have e0 : (RB.create cap).r = 0 := rfl
+  rw [e0, Nat.sub_zero] at h3
+  rw [e0, Nat.sub_zero, List.drop_zero] at h4
+  exact ⟨mask, h3, by omega, h4⟩
 
 /-- **C18_rewind_counterexample**: the forward hypothesis is needed.  cap 64: write 13 bytes,
 `Read(10)`, `DiscardStride(8)`, `ReadAll` re-delivers bytes 8 and 9. -/
@@ -108,6 +625,8 @@ theorem C18_rewind_counterexample :
 
 /-- non-vacuity: an ordinary wrapping history satisfies `OkHist` -/
 example : OkHist (RB.create 4) [.write [1,2,3], .read 2, .write [4,5], .discard 2, .readAll] := by
+  refine ⟨trivial, trivial, trivial, ⟨by decide, ?_⟩, trivial, trivial⟩
+  show (_ : Nat) ≤ _
   decide
 
 end DastardV.C18
